@@ -141,12 +141,12 @@ pub open spec fn dt_matches(d: DataType, m: MV) -> bool
 pub trait Message: Sized {
     spec fn mv(&self) -> MV;
 
-    fn write(&self, writer: &mut impl Write) -> (r: RdpResult<()>)
+    fn write<W: Write>(&self, writer: &mut W) -> (r: RdpResult<()>)
         ensures
             r is Ok ==> final(writer).written() == old(writer).written() + ser(self.mv()),
             r is Err ==> is_prefix(old(writer).written(), final(writer).written());
 
-    fn read(&mut self, reader: &mut impl Read) -> (r: RdpResult<()>)
+    fn read<R: Read>(&mut self, reader: &mut R) -> (r: RdpResult<()>)
         ensures
             is_suffix(final(reader).rest(), old(reader).rest()),
             r is Ok ==> same_shape(old(self).mv(), final(self).mv()),
@@ -183,9 +183,9 @@ impl Field {
 impl Message for Field {
     open spec fn mv(&self) -> MV { self.fview() }
     #[verifier::external_body]
-    fn write(&self, writer: &mut impl Write) -> (r: RdpResult<()>) { unimplemented!() }
+    fn write<W: Write>(&self, writer: &mut W) -> (r: RdpResult<()>) { unimplemented!() }
     #[verifier::external_body]
-    fn read(&mut self, reader: &mut impl Read) -> (r: RdpResult<()>) { unimplemented!() }
+    fn read<R: Read>(&mut self, reader: &mut R) -> (r: RdpResult<()>) { unimplemented!() }
     #[verifier::external_body]
     fn length(&self) -> (r: u64) { unimplemented!() }
     #[verifier::external_body]
@@ -204,9 +204,9 @@ pub open spec fn trame_view(s: Seq<Field>) -> Seq<MV> {
 impl Message for Trame {
     open spec fn mv(&self) -> MV { MV::Trame(trame_view(self@)) }
     #[verifier::external_body]
-    fn write(&self, writer: &mut impl Write) -> (r: RdpResult<()>) { unimplemented!() }
+    fn write<W: Write>(&self, writer: &mut W) -> (r: RdpResult<()>) { unimplemented!() }
     #[verifier::external_body]
-    fn read(&mut self, reader: &mut impl Read) -> (r: RdpResult<()>) { unimplemented!() }
+    fn read<R: Read>(&mut self, reader: &mut R) -> (r: RdpResult<()>) { unimplemented!() }
     #[verifier::external_body]
     fn length(&self) -> (r: u64) { unimplemented!() }
     #[verifier::external_body]
@@ -246,9 +246,9 @@ impl Component {
 impl Message for Component {
     open spec fn mv(&self) -> MV { MV::Comp(self.fields()) }
     #[verifier::external_body]
-    fn write(&self, writer: &mut impl Write) -> (r: RdpResult<()>) { unimplemented!() }
+    fn write<W: Write>(&self, writer: &mut W) -> (r: RdpResult<()>) { unimplemented!() }
     #[verifier::external_body]
-    fn read(&mut self, reader: &mut impl Read) -> (r: RdpResult<()>) { unimplemented!() }
+    fn read<R: Read>(&mut self, reader: &mut R) -> (r: RdpResult<()>) { unimplemented!() }
     #[verifier::external_body]
     fn length(&self) -> (r: u64) { unimplemented!() }
     #[verifier::external_body]
@@ -278,6 +278,17 @@ pub enum Value<Type> {
 pub type U16 = Value<u16>;
 pub type U32 = Value<u32>;
 
+impl<Type: Copy> Value<Type> {
+    pub open spec fn val(&self) -> Type { match *self { Value::BE(e) => e, Value::LE(e) => e } }
+    pub fn inner(&self) -> (r: Type)
+        ensures r == self.val()
+    {
+        match self {
+            Value::<Type>::BE(e) | Value::<Type>::LE(e) => *e
+        }
+    }
+}
+
 /// wrapper that checks a constant on read
 pub struct Check<T> { pub value: T }
 impl<T> Check<T> {
@@ -306,9 +317,9 @@ impl<T: Message> DynOption<T> {
 impl<T: Message> Message for DynOption<T> {
     open spec fn mv(&self) -> MV { self.dview() }
     #[verifier::external_body]
-    fn write(&self, writer: &mut impl Write) -> (r: RdpResult<()>) { unimplemented!() }
+    fn write<W: Write>(&self, writer: &mut W) -> (r: RdpResult<()>) { unimplemented!() }
     #[verifier::external_body]
-    fn read(&mut self, reader: &mut impl Read) -> (r: RdpResult<()>) { unimplemented!() }
+    fn read<R: Read>(&mut self, reader: &mut R) -> (r: RdpResult<()>) { unimplemented!() }
     #[verifier::external_body]
     fn length(&self) -> (r: u64) { unimplemented!() }
     #[verifier::external_body]
@@ -349,9 +360,9 @@ impl<T: Message> Array<T> {
 impl<T: Message> Message for Array<T> {
     open spec fn mv(&self) -> MV { self.aview() }
     #[verifier::external_body]
-    fn write(&self, writer: &mut impl Write) -> (r: RdpResult<()>) { unimplemented!() }
+    fn write<W: Write>(&self, writer: &mut W) -> (r: RdpResult<()>) { unimplemented!() }
     #[verifier::external_body]
-    fn read(&mut self, reader: &mut impl Read) -> (r: RdpResult<()>) { unimplemented!() }
+    fn read<R: Read>(&mut self, reader: &mut R) -> (r: RdpResult<()>) { unimplemented!() }
     #[verifier::external_body]
     fn length(&self) -> (r: u64) { unimplemented!() }
     #[verifier::external_body]
